@@ -3,6 +3,7 @@
 //! single-threaded tokio clock.
 
 pub mod transport;
+pub mod wire;
 pub mod world;
 pub mod faults;
 pub mod runs;
